@@ -645,7 +645,7 @@ impl<'a> Gen<'a> {
     fn str_expr(&mut self, depth: u32) -> Node {
         let d = depth + 1;
         let std_ok = self.cfg.stdlib;
-        match self.rng.below(if std_ok { 16 } else { 4 }) {
+        match self.rng.below(if std_ok { 18 } else { 4 }) {
             0 => {
                 let l = self.expr(&Ty::Str, d);
                 let r = self.expr(&Ty::Str, d);
@@ -716,9 +716,25 @@ impl<'a> Gen<'a> {
                 let s = self.expr(&Ty::Str, d);
                 Node { ty: Ty::Str, parts: vec![t("std.format(\"[%5s|%-4s]\", ["), P::N(s), t(", \"z\"])")] }
             }
-            _ => {
+            15 => {
                 let a = self.expr(&Ty::Arr(Box::new(Ty::Str)), d);
                 self.call1(Ty::Str, "std.deepJoin", vec![a])
+            }
+            16 => {
+                // object-driven formatting and the remaining manifesters
+                let o = self.object_with(d, Some(("f1".to_string(), Ty::Num)));
+                match self.rng.below(4) {
+                    0 => Node { ty: Ty::Str, parts: vec![t("(\"%(f1)s|%(f1)5.1f\" % "), P::N(o), t(")")] },
+                    1 => Node { ty: Ty::Str, parts: vec![t("std.manifestIni({ main: { a: 1 }, sections: { s: "), P::N(o), t(" } })")] },
+                    2 => Node { ty: Ty::Str, parts: vec![t("std.manifestXmlJsonml([\"t\", { k: \"v\" }, std.toString("), P::N(o), t(".f1)])")] },
+                    _ => Node { ty: Ty::Str, parts: vec![t("std.manifestPythonVars("), P::N(o), t(")")] },
+                }
+            }
+            _ => {
+                let o = self.expr(&Ty::Obj, d);
+                let dflt = self.expr(&Ty::Str, d);
+                let f = *self.rng.pick(FIELDS);
+                Node { ty: Ty::Str, parts: vec![t("std.toString(std.get("), P::N(o), t(format!(", \"{f}\", ")), P::N(dflt), t("))")] }
             }
         }
     }
@@ -803,7 +819,7 @@ impl<'a> Gen<'a> {
         let d = depth + 1;
         let aty = Ty::Arr(Box::new(et.clone()));
         let std_ok = self.cfg.stdlib;
-        let choice = self.rng.below(if std_ok { 20 } else { 5 });
+        let choice = self.rng.below(if std_ok { 21 } else { 5 });
         match choice {
             0 | 1 => {
                 let n = self.rng.usize_below(5);
@@ -930,6 +946,64 @@ impl<'a> Gen<'a> {
                 let fm = self.lam(&[("x", st.clone())], et, d);
                 let xs = self.expr(&Ty::Arr(Box::new(st)), d);
                 self.call1(aty, "std.filterMap", vec![ff, fm, xs])
+            }
+            19 if std_ok => {
+                // a second tier of array builtins (state kept across many evaluator steps)
+                match self.rng.below(10) {
+                    0 => {
+                        let o = self.expr(&Ty::Obj, d);
+                        let fname = *self.rng.pick(&["std.objectValues", "std.objectValuesAll", "std.objectKeysValues"]);
+                        let inner = self.call1(Ty::Arr(Box::new(Ty::Any)), fname, vec![o]);
+                        if *et == Ty::Any { inner } else { let f = self.lam(&[("x", Ty::Any)], et, d); self.call1(aty, "std.map", vec![f, inner]) }
+                    }
+                    1 => {
+                        let a = self.expr(&aty, d);
+                        let i = Node::leaf(Ty::Num, self.rng.below(3).to_string());
+                        self.call1(aty, "std.removeAt", vec![a, i])
+                    }
+                    2 => {
+                        let a = self.expr(&aty, d);
+                        let x = self.expr(et, d);
+                        self.call1(aty, "std.remove", vec![a, x])
+                    }
+                    3 => {
+                        let a = self.expr(&aty, d);
+                        let b = self.expr(&aty, d);
+                        Node { ty: aty, parts: vec![t("std.flattenDeepArray(["), P::N(a), t(", ["), P::N(b), t(", []]])")] }
+                    }
+                    4 => {
+                        let f = self.lam(&[("x", et.clone()), ("acc", Ty::Arr(Box::new(et.clone())))], &aty, d);
+                        let a = self.expr(&aty, d);
+                        Node { ty: aty, parts: vec![t("std.foldr("), P::N(f), t(", "), P::N(a), t(", [])")] }
+                    }
+                    5 if *et == Ty::Str => {
+                        let s = self.expr(&Ty::Str, d);
+                        self.call1(aty, "std.stringChars", vec![s])
+                    }
+                    6 if *et == Ty::Str => {
+                        let s = self.expr(&Ty::Str, d);
+                        Node { ty: aty, parts: vec![t("std.splitLimit("), P::N(s), t(", \" \", 2)")] }
+                    }
+                    7 if *et == Ty::Num => {
+                        let a = self.expr(&aty, d);
+                        let x = self.expr(&Ty::Num, d);
+                        self.call1(aty, "std.find", vec![x, a])
+                    }
+                    8 => {
+                        let a = self.expr(&aty, d);
+                        let f = self.lam(&[("x", et.clone())], &Ty::Num, d);
+                        let mut n = self.call1(aty.clone(), "std.sort", vec![a]);
+                        n.parts.pop();
+                        n.parts.push(t(", keyF="));
+                        n.parts.push(P::N(f));
+                        n.parts.push(t(")"));
+                        n
+                    }
+                    _ => {
+                        let a = self.expr(&aty, d);
+                        Node { ty: aty, parts: vec![t("(local arr = "), P::N(a), t("; [arr[i] for i in std.range(0, std.length(arr) - 1) if std.setMember(i % 2, [0])])")] }
+                    }
+                }
             }
             _ => {
                 let n = self.rng.usize_below(4);
